@@ -455,7 +455,7 @@ var dfsPrograms = [][][]ccall{
 func runConc(r *hx.Runner, f *hx.Flags) {
 	nprog, nsched, bound, limit := r.N(2000), 8, 3, 20000
 	if f.Tier == "thorough" {
-		nprog, nsched, bound, limit = r.N(40000), 12, 4, 400000
+		nprog, nsched, bound, limit = r.N(15000), 12, 4, 40000
 	}
 	for i := 0; i < nprog; i++ {
 		progs := genProgs(r.Rng)
